@@ -88,6 +88,10 @@ decode_forms!(c12_dec_pair_2_known, c12_dec_pair_2_unknown, (u8, u8), 2);
 //@ props=C12,C04 tier=thorough bounds=E=Option<u8>;n=2;both-forms
 decode_forms!(c12_dec_opt_2_known, c12_dec_opt_2_unknown, Option<u8>, 2);
 
+//@ props=C12,C04 tier=quick bounds=E=();n=3;both-forms(zero-width-elements:count-exceeds-remaining-bytes)
+//@ props=C12,C04 tier=quick bounds=E=();n=3;both-forms(zero-width-elements:count-exceeds-remaining-bytes)
+decode_forms!(c12_dec_unit_3_known, c12_dec_unit_3_unknown, (), 3);
+
 /// an iterator whose size hint is inexact: forces the unknown-length form
 struct Inexact<'a, E> { xs: &'a [E], i: usize }
 impl<'a, E> Iterator for Inexact<'a, E> {
